@@ -145,8 +145,9 @@ class LockSampler(threading.Thread):
                     if os.readlink('/proc/%s/cwd' % d) != self.top:
                         continue
                     st = open('/proc/%s/stat' % d).read()
-                    start = st[st.rfind(')') + 2:].split()[19]
-                    scripts.append((int(d), cmd[3].decode('utf-8', 'replace'), start))
+                    ff = st[st.rfind(')') + 2:].split()
+                    start = ff[19]
+                    scripts.append((int(d), cmd[3].decode('utf-8', 'replace'), start, int(ff[3])))
                 except (OSError, IndexError):
                     continue
             if not scripts:
@@ -159,7 +160,7 @@ class LockSampler(threading.Thread):
                 continue
             try:
                 self.samples += 1
-                for pid, t, start in scripts:
+                for pid, t, start, sid in scripts:
                     fid = self.fid_of.get(t)
                     if fid is None:
                         continue
@@ -178,7 +179,7 @@ class LockSampler(threading.Thread):
                         continue          # it ended while we were looking: says nothing
                     self.scripts_seen += 1
                     if ltype == fcntl.F_UNLCK:
-                        self.missing.append((t, pid))
+                        self.missing.append((t, pid, sid))
                     else:
                         self.holders_seen.add(lpid)
             finally:
@@ -345,10 +346,14 @@ def case(item):
         ma, st = monitor(tr, fmap)
         for a in ma:
             anoms.append(a)
-        if sampler.missing:
-            t, pid = sampler.missing[0]
+        # a session that was signalled as a whole dies process by process: for a moment a script can outlive the redo process
+        # that held its lock.  Misses inside the killed session are that moment, not a release under a running script.
+        missing = [m_ for m_ in sampler.missing if not (killedA and m_[2] == killedA)]
+        obs['lock_probe_misses_inside_killed_session'] = len(sampler.missing) - len(missing)
+        if missing:
+            t, pid, _sid = missing[0]
             anoms.append(dict(key='lock-probe:script-alive-without-lock', what='F_GETLK probe: script of %s (pid %d) alive before and after a probe that found byte %s of .redo/locks unlocked (%d such probes)'
-                              % (t, pid, fmap.get(t), len(sampler.missing))))
+                              % (t, pid, fmap.get(t), len(missing))))
         obs.update(st)
         obs['lock_probe_rounds'] = sampler.samples
         obs['lock_probes_of_live_scripts'] = sampler.scripts_seen
